@@ -338,6 +338,7 @@ func newRTPEncoder(
 	case *format.AC3:
 		wrapped := &rtpac3.Encoder{
 			PayloadType:           forma.PayloadTyp,
+			PayloadMaxSize:        rtpMaxPayloadSize,
 			SSRC:                  ssrc,
 			InitialSequenceNumber: initialSequenceNumber,
 		}
